@@ -67,7 +67,7 @@ inductive PV where
       -- uid, name, flow_uid, status name, context, start_event_arguments, flow_scope_count
   | partialFn : PV                       -- functools.partial (head callbacks)
   | regex : String → Int → PV            -- re.Pattern: pattern, flags
-  | cmp : PV                             -- eval.ComparisonExpression
+  | cmp : String → PV → PV               -- eval.ComparisonExpression: name of its constructor, reference value
   | other : String → PV                  -- any other class
   deriving Repr, Inhabited
 
@@ -166,6 +166,19 @@ def allStr : List (Key × PV) → Bool
   | [] => true
   | (k, _) :: rest => k.isStr && allStr rest
 
+/-- the reference value of a comparison is an int/float (bool ⊂ int), written raw -/
+def numJ : PV → Option J
+  | .int i => some (.int i)
+  | .flt m e => some (.flt m e)
+  | .bool b => some (.bool b)
+  | _ => none
+
+def numOfJ : J → Option PV
+  | .int i => some (.int i)
+  | .flt m e => some (.flt m e)
+  | .bool b => some (.bool b)
+  | _ => none
+
 def optStrJ : Option String → J
   | some s => .str s
   | none => .null
@@ -211,8 +224,10 @@ def encode : PV → Except Err J
   | .railsConfig kvs => do let o ← encodeKvs kvs; pure (wrap "RailsConfig" (.obj o))
   | .specType v => .ok (wrap "SpecType" (.str v))
   | .action uid name fu st ctx args sc => do
-      let c ← rawDump ctx
-      let a ← rawDump args
+      -- repair fixes/C11-action-payload.diff: every field goes through `encode_to_dict`
+      -- (before it, the raw `to_dict()` went to `json.dumps`: `rawDump`)
+      let c ← encode ctx
+      let a ← encode args
       pure (wrap "Action" (.obj [("uid", .str uid), ("name", .str name), ("flow_uid", optStrJ fu),
         ("status", .str st), ("context", c), ("start_event_arguments", a), ("flow_scope_count", .int sc)]))
   | .datetime iso => .ok (wrap "datetime" (.str iso))
@@ -221,7 +236,13 @@ def encode : PV → Except Err J
   | .tuple xs => do let ys ← encodeList xs; pure (wrap "tuple" (.arr ys))
   | .set xs => do let ys ← encodeList xs; pure (wrap "set" (.arr ys))
   | .regex p f => .ok (.obj [("__type", .str "regex"), ("pattern", .str p), ("flags", .int f)])
-  | .cmp => .error (.unhandledType "ComparisonExpression")
+  | .cmp op v =>
+      -- repair fixes/C11-comparison.diff: `obj.name in COMPARISON_OPERATORS`
+      if NemoVerif.Generated.C11.comparisonOps.contains op then
+        match numJ v with
+        | some j => .ok (.obj [("__type", .str "comparison"), ("op", .str op), ("value", j)])
+        | none => .error .typeError
+      else .error (.unhandledType "ComparisonExpression")
   | .other c => .error (.unhandledType c)
 def encodeList : List PV → Except Err (List J)
   | [] => .ok []
@@ -263,6 +284,10 @@ def strField (k : String) : List (String × J) → Except Err String
 def intField (k : String) : List (String × J) → Except Err Int
   | [] => .error .keyError
   | (k', v) :: rest => if k' = k then (match v with | .int i => .ok i | _ => .error .typeError) else intField k rest
+
+def fieldJ (k : String) : List (String × J) → Option J
+  | [] => none
+  | (k', v) :: rest => if k' = k then some v else fieldJ k rest
 
 /-- `"items" in d` -/
 def hasKey (k : String) : List (String × J) → Bool
@@ -361,6 +386,13 @@ def decode : J → Except Err PV
         let p ← strField "pattern" kvs
         let f ← intField "flags" kvs
         pure (.regex p f)
+      else if t = "comparison" then do
+        let op ← strField "op" kvs
+        if NemoVerif.Generated.C11.comparisonOps.contains op then
+          match (fieldJ "value" kvs).bind numOfJ with
+          | some v => pure (.cmp op v)
+          | none => .error .typeError
+        else .error .keyError
       else if t = "set" then do
         match ← decodeAtValue kvs with
         | .list xs => pure (.set xs)
@@ -454,9 +486,10 @@ def EncShape : PV → Bool
   | .list xs | .tuple xs | .set xs | .deque xs => EncShapeList xs
   | .dict kvs => EncShapeVals kvs
   | .data _ kvs | .railsConfig kvs => EncShapeKvs kvs
-  | .action _ _ _ _ ctx args _ => RawShape ctx && RawShape args
+  | .action _ _ _ _ ctx args _ => EncShape ctx && EncShape args
   | .regex _ _ => true
-  | .cmp | .other _ => false
+  | .cmp op v => NemoVerif.Generated.C11.comparisonOps.contains op && (numJ v).isSome
+  | .other _ => false
 def EncShapeList : List PV → Bool
   | [] => true
   | x :: xs => EncShape x && EncShapeList xs
@@ -491,8 +524,9 @@ def Encodable : PV → Bool
   | .data cls kvs =>
       EncodableKvs kvs && noTypeKey kvs && isDataclassName cls && !reservedTags.contains cls
         && ctorOk cls (kvs.map fun kv => keyName kv.1)
-  | .action _ _ _ st ctx args _ => RawOk ctx && RawOk args && enumOk "ActionStatus" st
-  | .partialFn | .cmp | .other _ => false
+  | .action _ _ _ st ctx args _ => Encodable ctx && Encodable args && enumOk "ActionStatus" st
+  | .cmp op v => NemoVerif.Generated.C11.comparisonOps.contains op && (numJ v).isSome
+  | .partialFn | .other _ => false
 def EncodableList : List PV → Bool
   | [] => true
   | x :: xs => Encodable x && EncodableList xs
@@ -543,7 +577,7 @@ def norm : PV → PV
   | .dict kvs => .dict (normVals kvs)
   | .data cls kvs => .data cls (normKvs kvs)
   | .railsConfig kvs => .railsConfig (normKvs kvs)
-  | .action uid name fu st ctx args sc => .action uid name fu st (rawNorm ctx) (rawNorm args) sc
+  | .action uid name fu st ctx args sc => .action uid name fu st (norm ctx) (norm args) sc
   | v => v
 def normList : List PV → List PV
   | [] => []
@@ -595,8 +629,9 @@ def Decodable : PV → Bool
   | .data cls kvs =>
       DecodableKvs kvs && plainKeys kvs && isDataclassName cls && !reservedTags.contains cls
         && ctorOk cls ((normKvs kvs).map fun kv => keyName kv.1)
-  | .action _ _ _ st ctx args _ => RawPlain ctx && RawPlain args && enumOk "ActionStatus" st
-  | .cmp | .other _ => false
+  | .action _ _ _ st ctx args _ => Decodable ctx && Decodable args && enumOk "ActionStatus" st
+  | .cmp op v => NemoVerif.Generated.C11.comparisonOps.contains op && (numJ v).isSome
+  | .other _ => false
 def DecodableList : List PV → Bool
   | [] => true
   | x :: xs => Decodable x && DecodableList xs
